@@ -9,6 +9,12 @@ PK = dict(harness="h_packet.c", units=["src/hamm.c"], flags=["--no-undefined-shi
                      "init_expand.0": 7, "init_expand.1": 65})
 
 
+def pad_member(rx, member_size):
+    """runner patch: scratch copy of cache-priv.h with a pad behind the union member whose last declaration matches rx, just big enough to
+    make it the widest member (drcs: 4416 bytes) (R17)"""
+    return {"src/cache-priv.h": [(rx, r"\g<0> uint8_t verif_pad[%d];" % (4416 - member_size + 8))]}
+
+
 def packet_obs():
     o = {}
     o["pagelink"] = Ob("pagelink_codec", func="h_pagelink", unwind=50, vin_size=64,
@@ -28,7 +34,8 @@ def packet_obs():
         desc="parse_pop on an arbitrary row, packet 1..26 (26 => designation added), arbitrary exact-size cache_page: no access outside (pointer table, triplet table); a single "
              "bit error in a clean byte/triplet gives the same return value and page state",
         encodes=["parse_pop", "vbi_unham24p", "vbi_unham8"], bounds="none within one packet; packet number enumerated by the runner (1..26 thorough; 1,2,3,4,5,25,26 quick)",
-        grid=[dict(PKTSEL=k) for k in range(1, 27)], quick_grid=[dict(PKTSEL=k) for k in (1, 2, 3, 4, 5, 25, 26)], timeout=600, mem_gb=4, **PK)
+        grid=[dict(PKTSEL=k) for k in range(1, 27)], quick_grid=[dict(PKTSEL=k) for k in (1, 2, 3, 4, 5, 25, 26)], timeout=600, mem_gb=4, solver="cadical",
+        patch=pad_member(r"struct ttx_triplet\s+triplet\[39 \* 13 \+ 1\];", 1732), defines=dict(PAD_UNION_MEMBER=None), **PK)
     o["x27"] = Ob("parse_27", func="h_27", unwind=50, vin_size=128, reach=["end", "clean"],
         desc="parse_27 on an arbitrary row and page state: no access outside link[36]; single bit error in a clean protected byte/triplet (bytes 0..37) => same result and state",
         encodes=["parse_27", "unham_page_link", "vbi_unham24p"], bounds="none within one packet; designation code enumerated by the runner (0..15 thorough; 0, 3, 4, 5, 6 quick)",
